@@ -622,5 +622,9 @@ func init() {
 		}
 	}
 	p.Floor = func(a *mon.Agg) string { return shFloor(a, true) }
+	{ // concurrent callers / readers (concurrent.go), after the sequential phases
+		conc, run := concPhase(p, concSighash(false)), p.Run
+		p.Run = func(c *mon.Ctx) { run(c); conc(c) }
+	}
 	mon.Register(p)
 }
